@@ -4,9 +4,12 @@
 package prog
 
 import (
+	"crypto/sha1"
+	"encoding/hex"
 	"encoding/json"
 	"fmt"
 	"go/ast"
+	"go/constant"
 	"go/token"
 	"go/types"
 	"os"
@@ -54,6 +57,47 @@ type FuncSig struct {
 	Recv string `json:"recv"`
 	Name string `json:"name"`
 	Sig  string `json:"sig"`
+	FP   string `json:"fp,omitempty"` // body fingerprint: string constants, library callees, shape; names of module functions excluded
+}
+
+// fingerprint summarises a body without the names of module functions, so that it survives renames.
+func (p *Program) fingerprint(f *ssa.Function) string {
+	var items []string
+	var scan func(g *ssa.Function)
+	nb, ni := 0, 0
+	scan = func(g *ssa.Function) {
+		nb += len(g.Blocks)
+		for _, b := range g.Blocks {
+			ni += len(b.Instrs)
+			for _, in := range b.Instrs {
+				var ops []*ssa.Value
+				for _, op := range in.Operands(ops) {
+					if op == nil || *op == nil {
+						continue
+					}
+					if k, ok := (*op).(*ssa.Const); ok && k.Value != nil && k.Value.Kind() == constant.String {
+						items = append(items, "s:"+constant.StringVal(k.Value))
+					}
+				}
+				if ci, ok := in.(ssa.CallInstruction); ok {
+					if cal := ci.Common().StaticCallee(); cal != nil {
+						if pk := pkgOf(cal); pk != nil && !p.IsModulePkg(pk.Pkg) {
+							items = append(items, "c:"+pk.Pkg.Path()+"."+cal.Name())
+						}
+					} else if ci.Common().IsInvoke() {
+						items = append(items, "i:"+ci.Common().Method.Name())
+					}
+				}
+			}
+		}
+		for _, af := range g.AnonFuncs {
+			scan(af)
+		}
+	}
+	scan(f)
+	sort.Strings(items)
+	h := sha1.Sum([]byte(fmt.Sprintf("%d/%d/%s", nb, ni, strings.Join(items, "\x00"))))
+	return hex.EncodeToString(h[:8])
 }
 
 func (p *Program) sigOf(f *ssa.Function) (FuncSig, bool) {
@@ -84,12 +128,29 @@ func (p *Program) sigOf(f *ssa.Function) (FuncSig, bool) {
 	return FuncSig{Pkg: p.Rel(pk.Pkg), Recv: recv, Name: g.Name(), Sig: sig}, true
 }
 
+func (p *Program) sigWithFP(f *ssa.Function) (FuncSig, bool) {
+	fs, ok := p.sigOf(f)
+	if !ok {
+		return fs, false
+	}
+	g := f
+	if o := f.Origin(); o != nil {
+		g = o
+	}
+	if g.Blocks != nil {
+		fs.FP = p.fingerprint(g)
+	} else {
+		fs.FP = p.fingerprint(f)
+	}
+	return fs, true
+}
+
 // Snapshot lists the top-level module functions (generic functions once, by their origin).
 func (p *Program) Snapshot() []FuncSig {
 	seen := map[string]bool{}
 	var out []FuncSig
 	for _, f := range p.Funcs {
-		fs, ok := p.sigOf(f)
+		fs, ok := p.sigWithFP(f)
 		if !ok {
 			continue
 		}
@@ -156,6 +217,28 @@ func (p *Program) detectRenames() {
 			p.alias[key(news[0])] = olds[0]
 			paired[key(news[0])], paired[key(olds[0])] = true, true
 			p.Renames = append(p.Renames, fmt.Sprintf("%s.%s%s is %s of the reference tree, renamed", news[0].Pkg, news[0].Recv, news[0].Name, olds[0].Name))
+			continue
+		}
+		// several functions of one signature renamed at once: pair those whose bodies have the same fingerprint
+		// (unique on both sides)
+		cntOld, cntNew := map[string]int{}, map[string]int{}
+		for _, o := range olds {
+			cntOld[o.FP]++
+		}
+		for _, n := range news {
+			cntNew[n.FP]++
+		}
+		for _, o := range olds {
+			if o.FP == "" || cntOld[o.FP] != 1 || cntNew[o.FP] != 1 {
+				continue
+			}
+			for _, n := range news {
+				if n.FP == o.FP {
+					p.alias[key(n)] = o
+					paired[key(n)], paired[key(o)] = true, true
+					p.Renames = append(p.Renames, fmt.Sprintf("%s.%s%s is %s of the reference tree, renamed (same body)", n.Pkg, n.Recv, n.Name, o.Name))
+				}
+			}
 		}
 	}
 	// second pass: a function turned into a method (or the reverse), possibly with its parameters reordered:
@@ -705,4 +788,22 @@ func (p *Program) FileOf(pos token.Pos) (*ast.File, *packages.Package) {
 		}
 	}
 	return nil, nil
+}
+
+// RefName is the plain name of a function as the reference tree knows it (a renamed function keeps its old
+// name): "mergeMappings", "clone". Closures get their parent's name with the $n suffix.
+func (p *Program) RefName(f *ssa.Function) string {
+	id := p.FuncID(f)
+	if i := strings.LastIndex(id, ")."); i >= 0 {
+		id = id[i+2:]
+	} else if i := strings.Index(id, "."); i >= 0 {
+		id = id[i+1:]
+	}
+	if i := strings.Index(id, "["); i >= 0 {
+		j := strings.LastIndex(id, "]")
+		if j > i {
+			id = id[:i] + id[j+1:]
+		}
+	}
+	return id
 }
